@@ -221,6 +221,11 @@ template<typename K> bool generate_family(const FamilySpec &f, size_t eps, std::
                 cur += jump;
             }
         }
+        if (f.seam == 4) {   // a few far outliers: the dense part then spans about a thousand Elias-Fano buckets holding ~150 segment keys each
+            W far = cur * 450 > (W(3) << 30) ? cur * 450 : (W(3) << 30);
+            for (int j = 0; j < 15; ++j) { keys.push_back(far + W(j) * 50000000); focus.push_back(keys.size() - 1); }
+            cur = keys.back();
+        }
         if (cur > hi) return false;
     } else return false;
 
